@@ -93,7 +93,8 @@ func childDecoders(j xw.Job) interface{} {
 // ---------------------------------------------------------------- part C: muxer (child side)
 
 type muxJob struct {
-	Frames []string `json:"frames"`
+	Frames []string   `json:"frames"`
+	Opts   xw.MuxOpts `json:"opts"`
 }
 
 func childMux(j xw.Job) interface{} {
@@ -103,7 +104,7 @@ func childMux(j xw.Job) interface{} {
 	for i, h := range mj.Frames {
 		frames[i], _ = hex.DecodeString(h)
 	}
-	return xw.RunMuxCase(frames, stopBound)
+	return xw.RunMuxCase(frames, mj.Opts, stopBound)
 }
 
 // ---------------------------------------------------------------- generators (parent side)
@@ -383,6 +384,52 @@ func muxSequence(r *hv.Rand, class string) [][]byte {
 				fs = append(fs, rawFrame(id, meta, len(d), hv.Pick(r, []uint32{0, 1, 2}), hv.Pick(r, []uint32{0, 1, 2, 3, 4, 1000, 1<<32 - 1}), d))
 			}
 		}
+	case "backpressure-unreliable":
+		// an unreliable tube the application holds without reading, flooded up to / past its
+		// 1000-slot receive queue, then FIN / more data / duplicate requests on it
+		id := pickTube(r, 0)
+		fs = append(fs, rawFrame(id, fREQ, 0, 0, 0, []byte{xw.HoldTubeType, 0}))
+		flood := hv.Pick(r, []int{999, 1000, 1001, 1200})
+		for i := 0; i < flood; i++ {
+			fs = append(fs, rawFrame(id, 0, 3, 0, uint32(i+1), []byte{byte(i), byte(i >> 8), 7}))
+		}
+		for i := 0; i < 6; i++ {
+			switch r.Intn(4) {
+			case 0:
+				fs = append(fs, rawFrame(id, fFIN, 0, 0, uint32(flood+i+1), nil))
+			case 1:
+				fs = append(fs, rawFrame(id, fFIN, 2, 0, uint32(flood+i+1), []byte{1, 2}))
+			case 2:
+				fs = append(fs, rawFrame(id, 0, 1, 0, uint32(flood+i+1), []byte{9}))
+			default:
+				fs = append(fs, rawFrame(id, fREQ, 0, 0, 0, []byte{xw.HoldTubeType, 0}))
+			}
+		}
+		fs = append(fs, rawFrame(id, fFIN, 0, 0, uint32(flood+9), nil)) // always at least one FIN on the full queue
+	case "backpressure-reliable":
+		// a reliable tube the application holds without reading: in-order data well past the
+		// receive window, out-of-window frames, retransmission requests, FIN
+		id := pickTube(r, fREL)
+		fs = append(fs, rawFrame(id, fREQ|fREL, 0, 0, 0, []byte{xw.HoldTubeType, 0}))
+		flood := hv.Pick(r, []int{200, 1000, 1500})
+		for i := 0; i < flood; i++ {
+			d := xw.PatternD(hv.Pick(r, []int{1, 100, 1400}), byte(i), 1)
+			fs = append(fs, rawFrame(id, fREL, len(d), 1, uint32(i+1), d))
+			if i%97 == 0 {
+				fs = append(fs, rawFrame(id, fREL|fRTR, len(d), 1, uint32(i+5000), d), rawFrame(id, fREL, len(d), 1, uint32(i/2), d))
+			}
+		}
+		fs = append(fs, rawFrame(id, fREL|fFIN|fACK, 0, 1, uint32(flood+1), nil))
+	case "backpressure-accept":
+		// more tube requests than the accept queue holds (128) while nobody accepts
+		for i := 0; i < 300; i++ {
+			meta := byte(fREQ)
+			if i%2 == 0 {
+				meta |= fREL
+			}
+			id := byte(2 + i/2)
+			fs = append(fs, rawFrame(id, meta, 0, 0, 0, []byte{byte(3 + r.Intn(5)), 0}))
+		}
 	case "req-flood":
 		// more tube requests than the accept queue holds (128), both kinds
 		for i := 0; i < 300; i++ {
@@ -496,20 +543,21 @@ func main() {
 	partB(r)
 
 	// ---- part C
-	classes := []string{"flags-sweep", "length-field", "ack-beyond-sent", "dup-acks", "data-and-fin", "req-flood", "random"}
+	classes := []string{"flags-sweep", "length-field", "ack-beyond-sent", "dup-acks", "data-and-fin", "req-flood", "random",
+		"backpressure-unreliable", "backpressure-reliable", "backpressure-accept", "backpressure-unreliable"}
 	var mjobs []xw.Job
 	var mdesc []struct {
 		class  string
 		frames [][]byte
 	}
-	for k := 0; k < hv.Scale(21, 210); k++ {
+	for k := 0; k < hv.Scale(33, 220); k++ {
 		class := classes[k%len(classes)]
 		fs := muxSequence(r, class)
 		hx := make([]string, len(fs))
 		for i, f := range fs {
 			hx[i] = hex.EncodeToString(f)
 		}
-		d, _ := json.Marshal(muxJob{Frames: hx})
+		d, _ := json.Marshal(muxJob{Frames: hx, Opts: xw.MuxOpts{StopAccepting: class == "backpressure-accept"}})
 		mjobs = append(mjobs, xw.Job{ID: len(mjobs), Kind: "mux", Data: d})
 		mdesc = append(mdesc, struct {
 			class  string
@@ -521,7 +569,7 @@ func main() {
 		res := mres[id]
 		var sb strings.Builder
 		for i, f := range md.frames {
-			if i >= 12 {
+			if i >= 6 {
 				fmt.Fprintf(&sb, " ...(%d frames)", len(md.frames))
 				break
 			}
@@ -532,7 +580,7 @@ func main() {
 			hx[i] = hex.EncodeToString(f)
 		}
 		c := hv.Case{Class: "mux/" + md.class, Desc: fmt.Sprintf("inject %d frames (%s):%s", len(md.frames), md.class, sb.String()), NT: true, Spec: true,
-			Key: fmt.Sprintf("mux-%d-%s", id, md.class), Replay: map[string]interface{}{"op": "inject into a server muxer with a live probe tube (reliable, id 1)", "frames_hex": hx}}
+			Key: fmt.Sprintf("mux-%d-%s", id, md.class), Replay: map[string]interface{}{"op": "inject into a server muxer with a live probe tube (reliable, id 1); the application echoes on the probe tube, keeps tubes of type 201 without reading them, closes all others" + map[bool]string{true: "; it stops accepting after the probe tube", false: ""}[md.class == "backpressure-accept"], "class": md.class, "frames_hex": hx}}
 		switch {
 		case res.Crashed:
 			site := res.Site
